@@ -128,3 +128,36 @@ Example ex_rejected_first_token :
   o_log o = [EvTok (TStart (nm "jabber:client" "presence") [at_ "" "id" "I"]);
              EvTok (TEnd (nm "jabber:client" "presence")); EvFlush].
 Proof. vm_compute. split; reflexivity. Qed.
+
+(* attributes that only share the local name of id / from / xmlns are left
+   alone: the stanza still gets its id and from, {urn:a}xmlns survives on a
+   namespaced element *)
+Example ex_namespaced_lookalikes :
+  spec_top s2s (str "ID")
+    (Elem (nm "jabber:server" "presence") [at_ "urn:a" "id" "x"; at_ "urn:a" "from" ""; at_ "urn:a" "xmlns" "v"; at_ "" "xmlns" "jabber:server"] []) =
+  Elem (nm "jabber:server" "presence")
+    [at_ "urn:a" "id" "x"; at_ "urn:a" "from" ""; at_ "urn:a" "xmlns" "v"; at_ "" "from" "example.net"; at_ "" "id" "ID"] [].
+Proof. vm_compute. reflexivity. Qed.
+
+(* the hypotheses of C05_wire_under_all_schedules: the two calls of ex_calls
+   both flush; under ex_schedule the connection holds the two complete iq
+   elements, thread 1's first *)
+Example ex_wire_schedule :
+  match run (step c2s) (ginit [str "A"; str "B"] (map call_thread ex_calls)) ex_schedule with
+  | Some g => wire (g_out g) =
+      map WTok (tokens_of (spec_top c2s (str "A") ex_small) ++ tokens_of (spec_top c2s (str "B") ex_small))
+  | None => False
+  end.
+Proof. vm_compute. reflexivity. Qed.
+
+Example ex_all_flush : Forall (fun ek : tree * nat => (1 <= snd ek)%nat) [(ex_small, 1%nat); (ex_small, 1%nat)].
+Proof. repeat constructor. Qed.
+
+(* Encode of a WriterTo value leaves its element in the encoder's buffer: the
+   witness behind C05_call_is_flushed_refuted, and the next call flushes it *)
+Example ex_writerto_pending :
+  let o1 := fst (run_call c2s (ost0 [str "A"; str "B"]) (CEncode (VWriterTo (tokens_of ex_small) false))) in
+  wire o1 = [] /\ pending_of [] (o_log o1) = tokens_of (spec_top c2s (str "A") ex_small) /\
+  wire (fst (run_call c2s o1 (CSend (mkreader (tokens_of ex_small ++ []) false)))) =
+    map WTok (tokens_of (spec_top c2s (str "A") ex_small) ++ tokens_of (spec_top c2s (str "B") ex_small)).
+Proof. vm_compute. repeat split; reflexivity. Qed.
